@@ -303,23 +303,40 @@ CLIOPTS = {
     'casts': ({'int_fields': ['A'], 'sc_separated': ['B']}, {'process': {'A': 'int', 'B': 'sc'}}),
     'casts2': ({'float_fields': ['A'], 'sc_pipe_separated': ['B']}, {'process': {'A': 'float', 'B': 'scpipe'}}),
     'header': ({'sample_header': ['id', 'AA'], 'observation_header': ['id', 'AA']}, {'header': ['id', 'AA']}),
+    # the two header overrides are independent of each other: (options, reference sample axis, reference obs axis)
+    'header_obs': ({'observation_header': ['id', 'AA']}, {}, {'header': ['id', 'AA']}),
+    'header_samp': ({'sample_header': ['id', 'AA']}, {'header': ['id', 'AA']}, {}),
+    'header_diff': ({'sample_header': ['id', 'AA'], 'observation_header': ['id', 'BB', 'CC']},
+                    {'header': ['id', 'AA']}, {'header': ['id', 'BB', 'CC']}),
 }
 
 
 def check3_add(seq, lines, acc, tmp):
     from biom.cli.metadata_adder import _add_metadata
     from biom.exception import BiomParseException
-    for cname, (cli_kw, ref_kw) in CLIOPTS.items():
-        exp = ref_parse(lines, **ref_kw)
-        if exp == 'OUT':
-            continue
-        for ax in ('sample', 'observation'):
+    for cname, opt in CLIOPTS.items():
+        cli_kw = opt[0]
+        for ax in ('sample', 'observation', 'both'):
+            if ax == 'both':
+                if len(opt) == 2:
+                    continue
+                exps = [ref_parse(lines, **opt[1]), ref_parse(lines, **opt[2])]
+                if 'OUT' in exps:
+                    continue
+                exp = 'ERR' if 'ERR' in exps else exps
+            else:
+                exp = ref_parse(lines, **(opt[1] if ax == 'sample' or len(opt) == 2 else opt[2]))
+                if exp == 'OUT':
+                    continue
             t, m = _table3()
             before = O.content(t)
             acc.trans += 1
             acc.evals += 1
             args = dict(cli_kw)
-            args['sample_metadata' if ax == 'sample' else 'observation_metadata'] = list(lines)
+            if ax in ('sample', 'both'):
+                args['sample_metadata'] = list(lines)
+            if ax in ('observation', 'both'):
+                args['observation_metadata'] = list(lines)
             case = {'part': 3, 'seq': list(seq), 'cli': cname, 'axis': ax}
             try:
                 r = _add_metadata(t, **args)
@@ -336,7 +353,8 @@ def check3_add(seq, lines, acc, tmp):
             if exp == 'ERR':
                 acc.violation('add-metadata:illformed-accepted', '_add_metadata accepted %r' % lines, case)
                 continue
-            d = diff(r, m.add_md(ax, exp))
+            want = m.add_md('sample', exp[0]).add_md('observation', exp[1]) if ax == 'both' else m.add_md(ax, exp)
+            d = diff(r, want)
             if d is not None:
                 acc.violation('add-metadata:result', '_add_metadata(%s, %s) with %r: %s' % (ax, cname, lines, d), case)
             else:
@@ -358,8 +376,8 @@ def check3cmd(case, acc, tmp):
     from biom import load_table
     from biom.cli.metadata_adder import add_metadata as cmd
     lines = [MENU[i] for i in case['seq']]
-    exp = ref_parse(lines, process={'A': 'int'})
-    if exp in ('ERR', 'OUT'):
+    exp0 = ref_parse(lines, process={'A': 'int'})
+    if exp0 in ('ERR', 'OUT'):
         return
     from biom import Table
     Dc = np.array([[1, 2.]])
@@ -373,10 +391,16 @@ def check3cmd(case, acc, tmp):
         t.to_hdf5(fh, 'verif')
     with open(mf, 'w') as fh:
         fh.writelines(lines)
-    for ax in ('sample', 'observation'):
+    for ax, hdr in itertools.product(('sample', 'observation'), (None, 'own')):
+        exp = exp0
+        if hdr:
+            # the header override of this axis, with a different one given for the other axis
+            exp = ref_parse(lines, process={'A': 'int'}, header=['id', 'ZZ'])
+            if exp in ('ERR', 'OUT'):
+                continue
         ids = m.ids(ax)
         covers = all(i in exp for i in ids) and len({tuple(sorted(exp[i])) for i in ids}) == 1
-        for as_json in ((True, False) if covers else (True,)):
+        for as_json in ((True, False) if covers and not hdr else (True,)):
             dst = os.path.join(tmp, 'am_out.biom')
             if os.path.exists(dst):
                 os.unlink(dst)
@@ -386,22 +410,25 @@ def check3cmd(case, acc, tmp):
                       sc_separated=None, sc_pipe_separated=None, int_fields='A', float_fields=None,
                       sample_header=None, observation_header=None, output_as_json=as_json)
             kw['sample_metadata_fp' if ax == 'sample' else 'observation_metadata_fp'] = mf
-            c = dict(case, axis=ax, json=as_json)
+            if hdr:
+                kw['sample_header'] = 'id,ZZ' if ax == 'sample' else 'id,QQ,RR'
+                kw['observation_header'] = 'id,ZZ' if ax == 'observation' else 'id,QQ,RR'
+            c = dict(case, axis=ax, json=as_json, header=hdr)
             try:
                 cmd.callback(**kw)
                 r = load_table(dst)
             except Exception as e:
                 acc.violation('add-metadata-command:raised:' + type(e).__name__,
-                              'add-metadata (%s, json=%s) with %r raised %s: %s'
-                              % (ax, as_json, lines, type(e).__name__, str(e)[:200]), c)
+                              'add-metadata (%s, json=%s, header=%s) with %r raised %s: %s'
+                              % (ax, as_json, hdr, lines, type(e).__name__, str(e)[:200]), c)
                 continue
             d = diff(r, m.add_md(ax, exp), ignore_type=True)
             if d is not None:
-                acc.violation('add-metadata-command:result', 'add-metadata (%s, json=%s) with %r: %s'
-                              % (ax, as_json, lines, d), c)
+                acc.violation('add-metadata-command:result', 'add-metadata (%s, json=%s, header=%s) with %r: %s'
+                              % (ax, as_json, hdr, lines, d), c)
             else:
                 acc.count('clause:add-metadata-command' + ('-json' if as_json else '-hdf5'))
-                acc.nontrivial.add(h64(('cmd', tuple(case['seq']), ax, as_json)))
+                acc.nontrivial.add(h64(('cmd', tuple(case['seq']), ax, as_json, hdr)))
 
 
 def check(case, acc, tmp):
